@@ -220,8 +220,47 @@ pub struct Expect {
     pub kind: &'static str,
     pub status: u16,
     /// None: the body must be empty
-    pub body: Option<(Value, FloatMode)>,
+    pub body: Option<WantBody>,
     pub headers: BTreeMap<String, Vec<Vec<u8>>>,
+}
+
+/// the reference a body is compared with
+pub enum WantBody {
+    /// serde_json::to_value(&value), read back with the own reader
+    Value(Value, FloatMode),
+    /// own exact tree (integers beyond 64 bits, which a Value cannot hold)
+    Exact(jsonp::J),
+}
+
+impl WantBody {
+    pub fn of<T: BodyGen>(value: &T) -> Result<WantBody, String> {
+        match value.exact() {
+            Some(j) => Ok(WantBody::Exact(j)),
+            None => serde_json::to_value(value).map(|v| WantBody::Value(v, T::FLOAT)).map_err(|e| e.to_string()),
+        }
+    }
+    fn same(&self, got: &jsonp::J) -> Result<(), String> {
+        match self {
+            WantBody::Value(v, fm) => jsonp::same(got, v, *fm),
+            WantBody::Exact(j) => jsonp::same_exact(got, j),
+        }
+    }
+    /// for witnesses
+    pub fn shown(&self) -> Value {
+        let t = match self {
+            WantBody::Value(v, _) => v.to_string(),
+            WantBody::Exact(j) => j.text(),
+        };
+        if t.len() < 600 {
+            match self {
+                WantBody::Value(v, _) => v.clone(),
+                // as text: a Value would lose the wide integers
+                WantBody::Exact(_) => json!(t),
+            }
+        } else {
+            json!("<large>")
+        }
+    }
 }
 
 /// observed response, in process or from the wire
@@ -258,7 +297,7 @@ pub fn judge(rep: &mut Report, exp: &Expect, seen: &Seen, ctx: &Value) -> bool {
         bad(rep, format!("C12:wrong-status:{kind}"), json!({"expected": exp.status}));
     }
     match &exp.body {
-        Some((want, fm)) => {
+        Some(want) => {
             let ct = seen.all("content-type");
             if ct.len() != 1 || !crate::gen::is_json_media_type(ct[0].as_slice()) {
                 bad(
@@ -274,7 +313,7 @@ pub fn judge(rep: &mut Report, exp: &Expect, seen: &Seen, ctx: &Value) -> bool {
                     json!({"error": e, "body": show(&String::from_utf8_lossy(&seen.body))}),
                 ),
                 Ok(j) => {
-                    if let Err(diff) = jsonp::same(&j, want, *fm) {
+                    if let Err(diff) = want.same(&j) {
                         bad(
                             rep,
                             format!("C12:body-differs-from-value:{kind}"),
@@ -399,7 +438,7 @@ fn inproc_typed<T: BodyGen>(rep: &mut Report, rng: &mut Rng, ctx: Value) {
     let wrap = rng.usize(WRAPS.len());
     let (value, vclass) = T::gen(rng);
     let hc = HeaderCase::gen(rng, wrap, false);
-    let want = match serde_json::to_value(&value) {
+    let want = match WantBody::of(&value) {
         Ok(v) => v,
         Err(e) => {
             rep.inconclusive(&format!("serde_json::to_value refused a {} value: {e}", T::NAME));
@@ -428,9 +467,9 @@ fn inproc_typed<T: BodyGen>(rep: &mut Report, rng: &mut Rng, ctx: Value) {
     ctx["kind"] = json!(kind);
     ctx["type"] = json!(T::NAME);
     ctx["value_class"] = json!(vclass);
-    ctx["value"] = if want.to_string().len() < 600 { want.clone() } else { json!("<large>") };
+    ctx["value"] = want.shown();
     ctx["headers"] = hc.json();
-    let exp = Expect { kind, status, body: Some((want, T::FLOAT)), headers: hc.expected() };
+    let exp = Expect { kind, status, body: Some(want), headers: hc.expected() };
     match k {
         0 => run_coded(rep, HttpResponseOk(value), &hc, &exp, class, &ctx),
         1 => run_coded(rep, HttpResponseCreated(value), &hc, &exp, class, &ctx),
@@ -578,7 +617,8 @@ macro_rules! body_types {
     ($m:ident) => {
         $m!(
             (), bool, u64, i64, f64, String, Option<String>, Vec<i64>, Vec<String>, Vec<Option<f64>>,
-            BTreeMap<String, String>, BTreeMap<i32, Vec<u8>>, Nested, Enums, F32s, serde_json::Value
+            BTreeMap<String, String>, BTreeMap<i32, Vec<u8>>, Nested, Enums, F32s, serde_json::Value,
+            WideBody, u128, Vec<i128>
         )
     };
 }
@@ -588,7 +628,7 @@ macro_rules! inproc_table {
 }
 const INPROC: &[InprocFn] = body_types!(inproc_table);
 
-pub const RULE_INPROC: &str = "random cases: response kind (ok/created/accepted x 16 body types incl. unit, numeric extremes, \
+pub const RULE_INPROC: &str = "random cases: response kind (ok/created/accepted x 19 body types incl. unit, numeric extremes, u128/i128 around and beyond the 64-bit range (compared exactly as decimal text), \
      any-Unicode strings, nested structs, enums in 4 tagging styles, maps, vectors, f32, arbitrary JSON trees; deleted; \
      updated-no-content; found/see-other/temporary-redirect) x wrapper (plain, HttpResponseHeaders unnamed / 1 / 3 declared String \
      fields) x explicit headers via headers_mut() (none, disjoint, colliding, multi-valued, colliding by case-insensitive name, \
@@ -733,10 +773,10 @@ redirect_handler!(h_see_other, http_response_see_other, dropshot::HttpResponseSe
 redirect_handler!(h_temporary, http_response_temporary_redirect, dropshot::HttpResponseTemporaryRedirect);
 
 /// client-side expectation for a typed endpoint
-type ExpectFn = fn(&mut Rng) -> Result<(Value, String, FloatMode), String>;
-fn expect_typed<T: BodyGen>(rng: &mut Rng) -> Result<(Value, String, FloatMode), String> {
+type ExpectFn = fn(&mut Rng) -> Result<(WantBody, String), String>;
+fn expect_typed<T: BodyGen>(rng: &mut Rng) -> Result<(WantBody, String), String> {
     let (value, vclass) = T::gen(rng);
-    serde_json::to_value(&value).map(|v| (v, vclass, T::FLOAT)).map_err(|e| e.to_string())
+    WantBody::of(&value).map(|w| (w, vclass))
 }
 
 struct TypeEntry {
@@ -815,7 +855,7 @@ pub fn build_api() -> Result<ApiDescription<C>, String> {
     Ok(api)
 }
 
-pub const RULE_LIVE: &str = "the in-process case space served by a real server (156 typed endpoints: 3 kinds x 16 body types x 4 \
+pub const RULE_LIVE: &str = "the in-process case space served by a real server (228 typed endpoints: 3 kinds x 19 body types x 4 \
      wrappers, 8 no-content endpoints, 3 redirect endpoints whose handlers rebuild the case from (seed, shard, case) in the query) and read \
      back with the strict raw HTTP/1.1 client on keep-alive connections: status, content-type, body == value, no body bytes on \
      204/3xx, declared/explicit headers, Location; illegal locations must yield an error status; class as in process plus body framing";
@@ -867,7 +907,7 @@ pub fn live_client(rep: &mut Report, addr: std::net::SocketAddr, seed: u64, shar
             let t = &LIVE_TYPES[sel.usize(LIVE_TYPES.len())];
             let (kind, status) = KINDS[sel.usize(KINDS.len())];
             let wrap = sel.usize(WRAPS.len());
-            let (want, vclass, fm) = match (t.expect)(&mut rng) {
+            let (want, vclass) = match (t.expect)(&mut rng) {
                 Ok(x) => x,
                 Err(e) => {
                     rep.inconclusive(&format!("serde_json::to_value refused a {} value: {e}", t.name));
@@ -878,11 +918,11 @@ pub fn live_client(rep: &mut Report, addr: std::net::SocketAddr, seed: u64, shar
             let mut ctx = ctx0;
             ctx["kind"] = json!(kind);
             ctx["type"] = json!(t.name);
-            ctx["value"] = if want.to_string().len() < 600 { want.clone() } else { json!("<large>") };
+            ctx["value"] = want.shown();
             ctx["headers"] = hc.json();
             (
                 format!("/c12/{kind}/{}/{}", WRAPS[wrap], t.name),
-                Some(Expect { kind, status, body: Some((want, fm)), headers: hc.expected() }),
+                Some(Expect { kind, status, body: Some(want), headers: hc.expected() }),
                 format!("{kind}|{}:{vclass}|{}|{}|decl:{}", t.name, WRAPS[wrap], hc.coll_class, hc.decl_kind),
                 ctx,
             )
